@@ -72,6 +72,9 @@ def cases(rng, hostile_frag):
                                                          ["end loop", None] + [None] * len(hl)]),
                   "choices": (["list_name", "name", "type", "kind"] + chl, [["veh", "car", "road", "k1"] + [f"Car.{h[-2:]}" for h in chl], ["veh", "bus", "road", "k2"] + [f"Bus.{h[-2:]}" for h in chl]])}
         yield sheets, [], f"loop-text|mismatch|{len(tl)}|{len(cl)}"
+        # ... and a choice without any label at all (a warning, not a reason to fail)
+        s2 = {"survey": sheets["survey"], "choices": (sheets["choices"][0], sheets["choices"][1] + [["veh", "tuk", "road", "k3"] + [None] * len(chl)])}
+        yield s2, [], f"loop-text|unlabeled-choice|{len(tl)}|{len(cl)}"
 
 
 def judge(sheets, exp):
